@@ -16,6 +16,7 @@ CONSTANTS
   WithIndexer = FALSE
   MaxHeaders = 0
   TraceMode = FALSE
+  Foreign = FALSE
 INVARIANTS NoCrash
 PROPERTIES EventuallyUninstalled UninstalledLeavesIndex
 CHECK_DEADLOCK TRUE
